@@ -266,6 +266,7 @@ def bounded(run):
     nscen = 600 if run.tier == "quick" else 6000
     jobs = [dict(seed=run.seed * 1000003 + k, count=nscen // 12) for k in range(12)]
     res, errs = native.pmap("contracts.C03", "nat_sweep", jobs)
+    run.worker_errors(errs, len(jobs))
     fails, ev, distinct = [], 0, 0
     for r in res:
         if r is None or "_error" in r:
